@@ -133,6 +133,13 @@ Section Statements.
     partitioned cmp l -> bsearch_valid cmp l (std_bsearch cmp l).
   Proof. exact (std_bsearch_valid cmp l). Qed.
 
+  (* ... and an Ok result of that algorithm is the LAST of several equal elements: the cause of the repaired
+     time / index lookups that answered the last message of a time *)
+  Theorem C16_std_bsearch_returns_last_equal {A} (cmp : A -> comparison) l i :
+    partitioned cmp l -> std_bsearch cmp l = BOk i ->
+    forall j a, i < j -> nthN l j = Some a -> cmp a = Gt.
+  Proof. exact (std_bsearch_ok_is_last cmp l i). Qed.
+
   (* whichever result the contract of binary_search allows on filtered_msgs: the answer is the position of the
      first stream message that is not before all_msgs position [ai] *)
   Theorem C16_stream_pos_first_not_before (all : list M) (s : sctx M) bs ai :
@@ -249,6 +256,7 @@ Print Assumptions C16_window_prefix_always.
 Print Assumptions C16_ids_announced_first.
 Print Assumptions C16_search_pages_partition.
 Print Assumptions C16_std_bsearch_meets_contract.
+Print Assumptions C16_std_bsearch_returns_last_equal.
 Print Assumptions C16_stream_pos_first_not_before.
 Print Assumptions C16_lookup_first_not_before.
 Print Assumptions C16_lookup_index_first_not_before.
